@@ -11,6 +11,7 @@ trap cleanup EXIT
 git -C "$wt" apply "$patch" || { echo "patch does not apply"; exit 2; }
 mkdir -p "$vf"; rsync -a --exclude work --exclude .git --exclude evidence --exclude replays --exclude seeded /verif/ "$vf/"; sed -i "s#path = \"/repo\"#path = \"$wt\"#" "$vf/harness/Cargo.toml"
 sed -i "s|path = \"/repo\"|path = \"$wt\"|" "$vf/harness/Cargo.toml"
+if [ -n "$SEEDRUN_CMD" ]; then (cd "$vf" && VERIF_REPO="$wt" VERIF_CACHE=/verif/work/cache VERIF_TLC_WORKERS=4 bash -c "$SEEDRUN_CMD"); exit $?; fi
 for p in "$@"; do
   out=$(cd "$vf" && VERIF_REPO="$wt" VERIF_CACHE=/verif/work/cache VERIF_TLC_WORKERS=4 ./check "$p" 2>&1); rc=$?
   [ -n "$SEEDRUN_FULL" ] && echo "$out" > "/verif/work/seed_results/$name-$p.full"
